@@ -146,6 +146,9 @@ def run_case(ctx, case):
 def big_case(rng, n):
     """>4000 distinct strings so the *default* sizes reach the sampling machinery."""
     xs = set()
+    if rng.random() < 0.4:
+        # regular ids and a couple of values of other shapes (the empty string among them) that the sample may leave out
+        xs = set('id%05d' % k for k in range(n)) | set(rng.choice([[''], ['', 'x-1'], ['zz 9', '']]))
     while len(xs) < n:
         k = rng.random()
         if k < 0.5:
